@@ -43,6 +43,9 @@ Rules applied to copied text (all line preserving, all counted in the report):
       say "the result is a function of the operands" (uninterpreted fle/flt/fge/fgt/fadd/fin).
   R13 `for (i, x) in E.iter().enumerate() {` -> `let mut r13_i = 0; let r13_n = E.len(); while r13_i < r13_n
       { let i = r13_i; let x = &E[r13_i]; r13_i = r13_i + 1;` (definition of slice::Iter + Enumerate).
+  R21 `for x in E.trigger_events(ARGS) {` -> `let r21_v = E.trigger_events_vec(ARGS); for x in r21_it: r21_v.iter() {`
+      (iterating over the collected results; the stand-in `trigger_events_vec` returns the actions as a Vec).
+  R22 `debug!(..);` statements are removed.   R23 `x.clone()` -> `x.clone_of()` (result equals the receiver).
   R19 a file-level `const` of the same file that a verified body names, and that the template does not
       bring in itself, is copied in front of the container.
   R16 `for (a, b) in X.iter_mut().zip(Y.iter()) {` -> `let mut r16_i = 0; let r16_n = min(X.len(), Y.len());
@@ -210,6 +213,11 @@ class Extractor:
             if m:
                 self.hit("R2.pub")
                 return "pub " + l
+        if opts.get("default_ty"):
+            l2 = re.sub(r"=\s*std::time::Instant", "= " + opts["default_ty"], l)
+            if l2 != l:
+                self.hit("R6.default_ty")
+                return l2
         if opts.get("drop_default_ty"):
             l2 = re.sub(r"\s*=\s*std::time::Instant", "", l)
             if l2 != l:
@@ -280,12 +288,17 @@ class Extractor:
         rel, regex = args[0], args[1]
         opts = self.parse_opts(args[2:])
         src = Source.get(self.repo, rel)
-        m = find_one(src.code, regex, what=rel)
-        hdr_ln = src.line_of(m.start())
-        first = item_start_line(src.lines, hdr_ln)
-        bo = body_open(src.code, m.start())
-        bc = match_close(src.code, bo)
-        bo_ln, bc_ln = src.line_of(bo), src.line_of(bc)
+        whole_file = (regex == "FILE")   # free functions: the file itself plays the container, nothing of it is emitted
+        if whole_file:
+            first, bo, bc = 0, -1, len(src.code)
+            bo_ln, bc_ln = -1, len(src.lines)
+        else:
+            m = find_one(src.code, regex, what=rel)
+            hdr_ln = src.line_of(m.start())
+            first = item_start_line(src.lines, hdr_ln)
+            bo = body_open(src.code, m.start())
+            bc = match_close(src.code, bo)
+            bo_ln, bc_ln = src.line_of(bo), src.line_of(bc)
         # parse sub-directives
         fns, add, cur, sub = [], [], None, None
         for l in body:
@@ -335,7 +348,7 @@ class Extractor:
         for f in fns:
             if f["opts"].get("external_body"):
                 continue
-            sp = self.fn_span(src, f["name"], bo, bc)
+            sp = self.fn_span(src, f["name"], max(bo, 0), bc)
             if sp[4] is None:
                 continue
             for ident in sorted(set(re.findall(r"\b[A-Z][A-Z0-9_]{2,}\b", src.code[sp[3]:sp[4]]))):
@@ -350,8 +363,9 @@ class Extractor:
                 self.report["items"].append({"item": "const " + ident + " (R19)", "file": rel, "lines": [k0 + 1, k1 + 1],
                                              "sha256": hashlib.sha256(src.src[m.start():m.end()].encode()).hexdigest()})
         # header
-        for k in range(first, bo_ln + 1):
-            self.out.emit_src(src, k, self.rewrite_line(src.lines[k], opts))
+        if not whole_file:
+            for k in range(first, bo_ln + 1):
+                self.out.emit_src(src, k, self.rewrite_line(src.lines[k], opts))
         if opts.get("all"):
             # locate each decorated fn first
             spans = {}
@@ -371,10 +385,11 @@ class Extractor:
                     k += 1
         else:
             for f in fns:
-                self.emit_fn(src, f, self.fn_span(src, f["name"], bo, bc), opts)
+                self.emit_fn(src, f, self.fn_span(src, f["name"], max(bo, 0), bc), opts)
         for l in add:
             self.out.emit(l)
-        self.out.emit_src(src, bc_ln, src.lines[bc_ln])
+        if not whole_file:
+            self.out.emit_src(src, bc_ln, src.lines[bc_ln])
 
     def fn_span(self, src, name, lo, hi):
         m = find_one(src.code, r"\bfn\s+%s\b" % re.escape(name), lo, hi, what="fn " + name)
@@ -505,6 +520,13 @@ class Extractor:
                     hit += 1
             tgt = pb_lines if pa.get("before") else pa_lines
             tgt[hit] = tgt.get(hit, []) + pa["text"]
+        # R21: `for x in E.trigger_events(ARGS) {` (the header may span lines): the iterator is collected first
+        r21_start = {}
+        for n, (ks, bo_) in enumerate(loops):
+            mte = re.match(r"for\s+(\w+)\s+in\s+(.+?)\.trigger_events\((.*)\)\s*$", src.src[ks:bo_], re.S)
+            if mte:
+                r21_start[src.line_of(ks)] = (n, ks, bo_, mte)
+                loop_open_ln.pop(src.line_of(bo_), None)
         drop_tail = fo.get("drop_tail")
         tail_dropped = False
         ovr = self.shim_overrides(src, p_open, p_close, rec, name, fo.get("floats")) if fo.get("shims") else {}
@@ -531,6 +553,46 @@ class Extractor:
                 k += 1
                 continue
             begin_n = None
+            if k in r21_start:
+                n, ks, bo_, mte = r21_start[k]
+                x = mte.group(1)
+                recv = " ".join(mte.group(2).split()).replace(" .", ".")
+                args_ = " ".join(mte.group(3).split())
+                ind = l[:len(l) - len(l.lstrip())]
+                for pl in f.get("loop_pre", {}).get(n, []):
+                    if pl.strip():
+                        self.out.emit(pl)
+                        self.hit("I4.proof_lines")
+                self.hit("R21.collect_actions")
+                rec["edits"].append("R21: `%s` -> collect, then iterate" % " ".join(src.src[ks:bo_].split()))
+                self.out.emit_src(src, k, "%slet r21_v = %s.trigger_events_vec(%s);" % (ind, recv, args_))
+                self.out.emit_src(src, k, "%sfor %s in r21_it: r21_v.iter()" % (ind, x))
+                ph = {"$i": "r21_it.index@", "$k": "r21_it.index@", "$n": "r21_v@.len()"}
+                def subst21(lines):
+                    out_ = []
+                    for il in lines:
+                        for a_, b_ in ph.items():
+                            il = il.replace(a_, b_)
+                        out_.append(il)
+                    return out_
+                for il in subst21(f["loops"].get(n, [])):
+                    if il.strip():
+                        self.out.emit(il)
+                        self.hit("I4.contract_lines")
+                if f.get("loop_begin", {}).get(n):
+                    f["loop_begin"][n] = subst21(f["loop_begin"][n])
+                if f.get("loop_end", {}).get(n):
+                    f["loop_end"][n] = subst21(f["loop_end"][n])
+                bo_ln_ = src.line_of(bo_)
+                if src.lines[bo_ln_].strip() != "{" and src.line_of(ks) != bo_ln_:
+                    raise LostAnchor("R21: loop body of fn %s does not open on its own line" % name)
+                self.out.emit_src(src, bo_ln_, "%s{" % ind)
+                for pl in f.get("loop_begin", {}).get(n, []):
+                    if pl.strip():
+                        self.out.emit(pl)
+                        self.hit("I4.proof_lines")
+                k = bo_ln_ + 1
+                continue
             if k in loop_open_ln:
                 n, ks, bo = loop_open_ln[k]
                 for pl in f.get("loop_pre", {}).get(n, []):
@@ -712,6 +774,23 @@ class Extractor:
         def overlaps(a, b):
             return any(a < e and s < b for s, e, _, _ in edits)
 
+        # R22: `debug!( .. );` statements (log output) are removed
+        for m in re.finditer(r"\bdebug!\s*\(", code[p_open:p_close]):
+            po = p_open + m.end() - 1
+            pc = match_close(code, po, "(", ")")
+            end = pc + 1
+            while end < p_close and code[end] in " \t":
+                end += 1
+            if code[end] == ";":
+                end += 1
+            nl = text.count("\n", p_open + m.start(), end)
+            edits.append((p_open + m.start(), end, "{" + "\n" * nl + "}", "R22"))
+        # R23: `x.clone()` -> `x.clone_of()` (same method resolution; CloneOf's contract: the result equals the receiver)
+        for m in re.finditer(r"\.clone\(\)", code[p_open:p_close]):
+            a_, b_ = p_open + m.start(), p_open + m.end()
+            if overlaps(a_, b_):
+                continue
+            edits.append((a_, b_, ".clone_of()", "R23"))
         for m in re.finditer(r"\bformat!\s*\(", code[p_open:p_close]):
             po = p_open + m.end() - 1
             pc = match_close(code, po, "(", ")")
